@@ -343,6 +343,43 @@ def exec_workflow(case):
                 os.makedirs(os.path.join(work, "cache_todo", uid))
                 PILImage.fromarray(make_rgb(w, h, case["salt"])).save(os.path.join(work, "cache_todo", uid, "image.png"))
                 open(os.path.join(work, "candidates", uid), "wb").close()
+                if case.get("process_fault"):
+                    # the image source's processing fails part-way (the k-th tile cannot be written): the job fails, and if an
+                    # index_rel.wtml is left in the output directory all the same, it has to describe what is there
+                    import errno
+                    from toasty.pyramid import PyramidIO
+
+                    cnt = {"n": 0}
+                    orig_write = PyramidIO.write_image
+
+                    def write_image(self, *a, **k):
+                        cnt["n"] += 1
+                        if cnt["n"] == case["process_fault"]:
+                            raise OSError(errno.ENOSPC, "No space left on device (injected by the harness)")
+                        return orig_write(self, *a, **k)
+
+                    PyramidIO.write_image = write_image
+                    failed = False
+                    try:
+                        tp.PipelineManager(work).process_todos()
+                    except Exception:  # noqa
+                        failed = True
+                    finally:
+                        PyramidIO.write_image = orig_write
+                    if failed:
+                        cls.append("processing-failed-part-way")
+                        for root, _dirs, files_ in os.walk(work):
+                            if "index_rel.wtml" in files_:
+                                tf = tile_files(root)
+                                iset, _pl = parse_wtml(os.path.join(root, "index_rel.wtml"))
+                                lev = int(iset.attrib.get("TileLevels", "0"))
+                                url = iset.attrib.get("Url", "")
+                                table = set(os.path.normpath(expand(url, p)) for p in rp.all_positions(min(max(lev, 3), 5)))
+                                stray = [f for f in tf if os.path.normpath(f) not in table]
+                                deepest = max([int(os.path.basename(f)[1:].split("X")[0]) for f in tf if os.path.basename(f).startswith("L") and "X" in f] + [0])
+                                if stray or lev != deepest:
+                                    raise Violation("tile-levels", f"pipeline process-todos failed part-way (tile write #{case['process_fault']}) and left an index_rel.wtml with TileLevels={lev}, Url {url!r} next to tiles whose deepest level is {deepest}; files not described by it: {sorted(stray)[:4]}")
+                        return Outcome(classes=cls, nontrivial=True)
                 with toasty_call("workflow", "pipeline process-todos"):
                     tp.PipelineManager(work).process_todos()
                 pos, L = study_positions(w, h, True)
@@ -503,6 +540,8 @@ def strat_workflow(draw, tier):
                     projection=draw(st.sampled_from(["plate-carree", "plate-carree-galactic", "plate-carree-ecliptic", "plate-carree-planet", "plate-carree-planet-zeroleft", "plate-carree-planet-zeroright", "plate-carree-panorama"])))
     elif wf == "pipeline":
         case.update(size=[draw(small), draw(small)])
+        if draw(st.booleans()):
+            case["process_fault"] = draw(st.sampled_from([1, 1, 2, 3, 5, 8]))
     elif wf == "tile-wwtl":
         case.update(size=[draw(small), draw(small)], cascade=draw(st.booleans()), placeholder=draw(st.booleans()))
     elif wf == "tile-multi-tan-cli":
